@@ -69,6 +69,7 @@ def run(prog, upto=None, hooks=None) -> Result:
     B = res.builders
     B[ROOT] = rb
     N = res.nodes
+    ops_made: dict = {}
 
     def wire(w):
         if "in" in w:
@@ -101,6 +102,9 @@ def run(prog, upto=None, hooks=None) -> Result:
         if e == "op":
             b = B[ev["r"]]
             op = partial_op(ev["op"]) if ev.get("partial") else mk_op(ev["op"])
+            if ev.get("same_as") is not None:
+                op = ops_made[ev["same_as"]]  # the operation object of an earlier node, used again
+            ops_made[idx] = op
             ws = [wire(w) for w in ev["args"]]
             mode = ev.get("mode", "add_op")
             if mode == "add_op":
